@@ -1,0 +1,199 @@
+//! Verification-only file-system seam. Compiled only with `--cfg agdb_verif`.
+//!
+//! `File` and `OpenOptions` mirror the subset of `std::fs` used by
+//! `FileStorage` and `WriteAheadLog`. Unless a simulated file system is
+//! installed (per thread or globally) *and* claims the path, every call
+//! delegates to `std::fs`, so behaviour is unchanged.
+
+use std::cell::RefCell;
+use std::io;
+use std::io::Read;
+use std::io::Seek;
+use std::io::SeekFrom;
+use std::io::Write;
+use std::sync::Arc;
+use std::sync::RwLock;
+
+#[derive(Clone, Copy, Debug, Default)]
+pub struct OpenFlags {
+    pub read: bool,
+    pub write: bool,
+    pub create: bool,
+    pub truncate: bool,
+}
+
+pub trait SimFs: Send + Sync {
+    fn owns(&self, path: &str) -> bool;
+    fn open(&self, path: &str, flags: OpenFlags) -> io::Result<u64>;
+    fn read(&self, handle: u64, buf: &mut [u8]) -> io::Result<usize>;
+    fn write(&self, handle: u64, buf: &[u8]) -> io::Result<usize>;
+    fn seek(&self, handle: u64, pos: SeekFrom) -> io::Result<u64>;
+    fn set_len(&self, handle: u64, len: u64) -> io::Result<()>;
+    fn close(&self, handle: u64);
+}
+
+thread_local! {
+    static LOCAL_FS: RefCell<Option<Arc<dyn SimFs>>> = const { RefCell::new(None) };
+}
+
+static GLOBAL_FS: RwLock<Option<Arc<dyn SimFs>>> = RwLock::new(None);
+
+/// Installs (or removes) the simulated file system for the current thread.
+pub fn install_fs(fs: Option<Arc<dyn SimFs>>) -> Option<Arc<dyn SimFs>> {
+    LOCAL_FS.with(|f| std::mem::replace(&mut *f.borrow_mut(), fs))
+}
+
+/// Installs (or removes) the simulated file system for threads without a local one.
+pub fn install_global_fs(fs: Option<Arc<dyn SimFs>>) -> Option<Arc<dyn SimFs>> {
+    std::mem::replace(&mut *GLOBAL_FS.write().unwrap(), fs)
+}
+
+fn fs_for(path: &str) -> Option<Arc<dyn SimFs>> {
+    let local = LOCAL_FS.with(|f| f.borrow().clone());
+    let fs = match local {
+        Some(fs) => Some(fs),
+        None => GLOBAL_FS.read().unwrap().clone(),
+    };
+    fs.filter(|fs| fs.owns(path))
+}
+
+pub enum File {
+    Real(std::fs::File),
+    Sim { fs: Arc<dyn SimFs>, handle: u64 },
+}
+
+impl std::fmt::Debug for File {
+    fn fmt(&self, f: &mut std::fmt::Formatter<'_>) -> std::fmt::Result {
+        match self {
+            File::Real(file) => file.fmt(f),
+            File::Sim { handle, .. } => write!(f, "SimFile({handle})"),
+        }
+    }
+}
+
+impl File {
+    pub fn open<P: AsRef<str>>(path: P) -> io::Result<File> {
+        OpenOptions::new().read(true).open(path)
+    }
+
+    pub fn set_len(&self, len: u64) -> io::Result<()> {
+        match self {
+            File::Real(file) => file.set_len(len),
+            File::Sim { fs, handle } => fs.set_len(*handle, len),
+        }
+    }
+}
+
+impl Drop for File {
+    fn drop(&mut self) {
+        if let File::Sim { fs, handle } = self {
+            fs.close(*handle);
+        }
+    }
+}
+
+impl Read for &File {
+    fn read(&mut self, buf: &mut [u8]) -> io::Result<usize> {
+        match self {
+            File::Real(file) => (&*file).read(buf),
+            File::Sim { fs, handle } => fs.read(*handle, buf),
+        }
+    }
+}
+
+impl Write for &File {
+    fn write(&mut self, buf: &[u8]) -> io::Result<usize> {
+        match self {
+            File::Real(file) => (&*file).write(buf),
+            File::Sim { fs, handle } => fs.write(*handle, buf),
+        }
+    }
+
+    fn flush(&mut self) -> io::Result<()> {
+        match self {
+            File::Real(file) => (&*file).flush(),
+            File::Sim { .. } => Ok(()),
+        }
+    }
+}
+
+impl Seek for &File {
+    fn seek(&mut self, pos: SeekFrom) -> io::Result<u64> {
+        match self {
+            File::Real(file) => (&*file).seek(pos),
+            File::Sim { fs, handle } => fs.seek(*handle, pos),
+        }
+    }
+}
+
+impl Read for File {
+    fn read(&mut self, buf: &mut [u8]) -> io::Result<usize> {
+        (&*self).read(buf)
+    }
+}
+
+impl Write for File {
+    fn write(&mut self, buf: &[u8]) -> io::Result<usize> {
+        (&*self).write(buf)
+    }
+
+    fn flush(&mut self) -> io::Result<()> {
+        (&*self).flush()
+    }
+}
+
+impl Seek for File {
+    fn seek(&mut self, pos: SeekFrom) -> io::Result<u64> {
+        (&*self).seek(pos)
+    }
+}
+
+#[derive(Clone, Debug, Default)]
+pub struct OpenOptions {
+    flags: OpenFlags,
+}
+
+impl OpenOptions {
+    #[allow(clippy::new_without_default)]
+    pub fn new() -> Self {
+        Self::default()
+    }
+
+    pub fn read(&mut self, read: bool) -> &mut Self {
+        self.flags.read = read;
+        self
+    }
+
+    pub fn write(&mut self, write: bool) -> &mut Self {
+        self.flags.write = write;
+        self
+    }
+
+    pub fn truncate(&mut self, truncate: bool) -> &mut Self {
+        self.flags.truncate = truncate;
+        self
+    }
+
+    pub fn create(&mut self, create: bool) -> &mut Self {
+        self.flags.create = create;
+        self
+    }
+
+    pub fn open<P: AsRef<str>>(&self, path: P) -> io::Result<File> {
+        let path = path.as_ref();
+
+        if let Some(fs) = fs_for(path) {
+            let handle = fs.open(path, self.flags)?;
+            return Ok(File::Sim { fs, handle });
+        }
+
+        Ok(File::Real(
+            std::fs::OpenOptions::new()
+                .read(self.flags.read)
+                .write(self.flags.write)
+                .truncate(self.flags.truncate)
+                .create(self.flags.create)
+                .open(path)?,
+        ))
+    }
+}
